@@ -60,12 +60,12 @@ def drivers(tier):
         dict(kind='enum', name='vec', exhaustive=True,
              bound='alphabet {0,1,3,7}, length<=%d, 4 dtypes' % (8 if th else 6),
              cases=lambda: _vec_cases(8 if th else 6)),
-        dict(kind='hyp', name='rand', strategy=_rand_case(), examples=40000 if th else 4000),
+        dict(kind='hyp', name='rand', strategy=_rand_case(), examples=150000 if th else 10000),
     ]
     try:
         from . import c07_model
         ds.append(dict(kind='hyp', name='model', strategy=c07_model.strategy(),
-                       examples=6000 if th else 600))
+                       examples=20000 if th else 2000))
     except ImportError:
         pass
     return ds
